@@ -29,6 +29,9 @@ Definition FS : fact := FSwap.
 Definition FL : fact := FLw.
 Definition FU : fact := FUn.
 Definition FX : fact := FFail.
+Definition FY : fact := FSync.
+Definition FZ : fact := FSyncFail.
+Definition FD (b : lmap) : fact := FWLow (copy_into b []).
 
 Inductive case :=
 | CFailSeek (bk : N) (nups : N) (acts : list fact) (r : range) (impl : kvs)
@@ -178,7 +181,7 @@ Definition check_sched2 (bk : backend) (acts : list sact2) (r : range) (impl : k
   end.
 
 Definition fact_okb (a : fact) : bool :=
-  match a with FW b | FWTop _ b => forallb (fun kv => negb (isnil (fst kv)) && bytes_okb (fst kv)) b | _ => true end.
+  match a with FW b | FWTop _ b | FWLow b => forallb (fun kv => negb (isnil (fst kv)) && bytes_okb (fst kv)) b | _ => true end.
 Definition finit (bk : backend) (nups : N) : fstate :=
   {| ups := repeat [] (N.to_nat nups);
      fsub := {| cbk := bk; cm := []; ctemp := None; cx := []; rsnap := None; rans := None |} |}.
